@@ -345,8 +345,17 @@ fn run_shard(
     let stats = RefCell::new(Stats::default());
     let failed = std::cell::Cell::new(false);
 
+    // Shrinking re-runs the check on candidate simplifications; with an expensive check (a library
+    // call walking thousands of days, a 25 MB calendar) six thousand candidates can take hours.
+    // Minimisation therefore gets a budget of 60 s of wall clock per shard, after which every
+    // further candidate is declined without being run: this bounds the *size of the replay*, never
+    // the verdict (the failure already stands, and is re-executed on the final input below).
+    let shrink_deadline: std::cell::Cell<Option<Instant>> = std::cell::Cell::new(None);
     let result = runner.run(&strategy, |v| {
         if !failed.get() && stop.load(Ordering::Relaxed) {
+            return Ok(());
+        }
+        if failed.get() && shrink_deadline.get().is_some_and(|d| Instant::now() > d) {
             return Ok(());
         }
         let mut case = Case::default();
@@ -357,6 +366,7 @@ fn run_shard(
                 Ok(()) => stats.borrow_mut().record(&case),
                 Err(_) => {
                     failed.set(true);
+                    shrink_deadline.set(Some(Instant::now() + std::time::Duration::from_secs(60)));
                     stop.store(true, Ordering::Relaxed);
                 }
             }
